@@ -1,6 +1,140 @@
 package checks
 
-import "wv/fw"
+import (
+	"fmt"
+	"os"
+	"path/filepath"
+	"strings"
+	"time"
 
-// filled in once the broker kit exists
-var c16EndToEnd = func(c *fw.Ctx) {}
+	"github.com/vx-labs/wasp/v4/wasp/auth"
+
+	"wv/fw"
+	"wv/kit"
+)
+
+// End-to-end part of C16: CONNECTs against a broker node whose authentication
+// handler is the real file (or static) handler.
+var c16EndToEnd = func(c *fw.Ctx) {
+	rg := c.SubRng("c16/e2e", 0)
+	dir := kit.WorkDir("c16e")
+	defer os.RemoveAll(dir)
+	rounds := c.Pick(6, 60)
+	for r := 0; r < rounds; r++ {
+		// a table of 3-6 users, mixed line shapes
+		k := 3 + rg.Intn(4)
+		perm := rg.Perm(len(c16Users))[:k]
+		table := []c16Entry{}
+		for _, ui := range perm {
+			e := c16Entry{User: c16Users[ui], Pass: c16Pass(c16Users[ui]), Fields: 2 + rg.Intn(2)}
+			if e.Fields == 3 && rg.Intn(3) > 0 {
+				e.Mount = "tenant-" + e.User[:1]
+			}
+			table = append(table, e)
+		}
+		lines := []string{}
+		for _, e := range table {
+			lines = append(lines, e.line())
+		}
+		path := filepath.Join(dir, fmt.Sprintf("cred-%d.csv", r))
+		os.WriteFile(path, []byte(strings.Join(lines, "\n")+"\n"), 0600)
+		static := r%3 == 2
+		var h auth.AuthenticationHandler
+		var err error
+		if static {
+			h, err = auth.StaticHandler(table[0].User, table[0].Pass)
+		} else {
+			h, err = auth.FileHandler(path)
+		}
+		if err != nil {
+			c.Violation("e2e:handler", fmt.Sprintf("handler construction failed for table %v: %v", table, err), nil)
+			continue
+		}
+		fw.LogCase("C16 e2e round %d static=%v table %v", r, static, table)
+		cl := kit.NewCluster(filepath.Join(dir, fmt.Sprintf("cluster-%d", r)))
+		n, err := cl.AddNode(kit.NodeOpts{ID: 1, Auth: h})
+		if err != nil {
+			c.Inconclusive("cannot start node: " + err.Error())
+			cl.Close()
+			return
+		}
+		func() {
+			defer cl.Close()
+			cands := []c16Cand{{"nobody", "x"}, {"", ""}, {table[0].User, "wrong"}, {table[0].User, table[0].Pass}}
+			for _, e := range table[1:] {
+				cands = append(cands, c16Cand{e.User, e.Pass}, c16Cand{e.User, table[0].Pass})
+			}
+			for ci, cd := range cands {
+				want := false
+				wantMount := auth.DefaultMountPoint
+				for i, e := range table {
+					if static && i > 0 {
+						break
+					}
+					if e.User == cd.User && e.Pass == cd.Pass {
+						want = true
+						if !static {
+							wantMount = e.wantMount()
+						}
+					}
+				}
+				clientID := fmt.Sprintf("c16-%d-%d", r, ci)
+				willTag := "refused-will-" + clientID
+				cc := n.Dial(clientID)
+				code, cerr := cc.Connect(kit.ConnectOpts{ClientID: clientID, KeepAlive: 60, Clean: true, User: cd.User, Pass: cd.Pass, HasUser: true, HasPass: true,
+					Will: true, WillTopic: "c16/will", WillPayload: []byte(willTag)})
+				desc := fmt.Sprintf("round %d (%s handler, table %v): CONNECT as (%q,%q)", r, map[bool]string{true: "static", false: "file"}[static], table, cd.User, cd.Pass)
+				c.Observe("e2e_connects", 1)
+				c.Case(fmt.Sprintf("e2e|%v|%v|%v", static, table, cd), true)
+				switch {
+				case want && (cerr != nil || code != 0):
+					c.Violation("e2e:valid-refused", fmt.Sprintf("%s was not accepted (code %d, %v)", desc, code, cerr), nil)
+				case !want && cerr == nil && code == 0:
+					c.Violation("e2e:invalid-accepted", fmt.Sprintf("%s was accepted", desc), nil)
+				case !want && cerr != nil:
+					c.Violation("e2e:no-refusal-connack", fmt.Sprintf("%s was not answered with a refusal CONNACK (%v)", desc, cerr), nil)
+				case want:
+					c.Observe("e2e_accepted", 1)
+					found := false
+					for _, s := range n.State.SessionMetadatas().All() {
+						if s.ClientID == clientID {
+							found = true
+							if s.MountPoint != wantMount {
+								c.Violation("e2e:wrong-mountpoint", fmt.Sprintf("%s: session placed in mount point %q, want %q", desc, s.MountPoint, wantMount), nil)
+							}
+						}
+					}
+					if !found {
+						c.Violation("e2e:accepted-without-session", desc+": accepted but no session record exists", nil)
+					}
+					cc.Send(kit.EncDisconnect())
+				default:
+					c.Observe("e2e_refused", 1)
+					// a refused CONNECT leaves nothing behind
+					cc.Close()
+					time.Sleep(20 * time.Millisecond)
+					for _, s := range n.State.SessionMetadatas().All() {
+						if s.ClientID == clientID {
+							c.Violation("e2e:refused-left-session", fmt.Sprintf("%s was refused but a session record exists (mount point %q)", desc, s.MountPoint), nil)
+						}
+					}
+					for _, s := range n.Local.ListSessions() {
+						if s.ClientID() == clientID {
+							c.Violation("e2e:refused-left-session", desc+" was refused but a session is registered", nil)
+						}
+					}
+				}
+				cc.Close()
+			}
+			// no will of a refused connection was ever stored or published
+			for _, rec := range n.Log.Records() {
+				if strings.HasPrefix(string(rec.Payload), "refused-will-") {
+					// refused connections create no will; accepted ones disconnected cleanly above
+					c.Violation("e2e:will-published", fmt.Sprintf("round %d: a will (%s) was published although refused connections create no will and accepted ones disconnected cleanly", r, rec.Payload), nil)
+				}
+			}
+		}()
+	}
+	c.Floor("e2e_refused", 5)
+	c.Floor("e2e_accepted", 5)
+}
